@@ -768,7 +768,9 @@ func (p *Payload) UnsetForTest(key string) {
 }
 
 func (p *Payload) IsEmpty() bool {
-	return p.isEmpty
+	// a payload that never received any data at all (a batch entry without a
+	// data object) is as empty as one that was given an empty map
+	return p.isEmpty || (len(p.msgpData) == 0 && len(p.memoizedFields) == 0 && !p.hasExtractedMetadata)
 }
 
 // All() allows easily iterating all values in the Payload, but this is very
